@@ -1353,13 +1353,8 @@ class Tensor:
             self.clear_graph()
             return
 
-        topo_sorted_tensors: Deque["Tensor"] = deque([])
-        seen: Set[int] = set()
-
-        collect_all_tensors_and_clear_grads(self, seen, topo_sorted_tensors)
-
-        # don't set self._grad yet because there is a grad-clearing step that
-        # occurs during graph creation
+        # (the seed is validated before any gradient in the graph is touched: a refused
+        # seed leaves every tensor as it was)
         if grad is not None:
             # `self` is guaranteed to be a tensor of floats
             # so we can simply cast `grad` to be the same dtype
@@ -1395,6 +1390,13 @@ class Tensor:
                 _grad = _tmp
         else:
             _grad = np.full_like(self.data, fill_value=1.0)
+
+        topo_sorted_tensors: Deque["Tensor"] = deque([])
+        seen: Set[int] = set()
+
+        # don't set self._grad before this: there is a grad-clearing step that
+        # occurs during graph creation
+        collect_all_tensors_and_clear_grads(self, seen, topo_sorted_tensors)
 
         self._grad = _grad
 
